@@ -369,6 +369,16 @@ func (r *Raft) restore() error {
 		if err := file.Close(); err != nil {
 			return fmt.Errorf("could not close snapshot file: %w", err)
 		}
+
+		// If the log ends before the snapshot does, the node was stopped after it had
+		// received the snapshot but before it had discarded its log. Finish the job:
+		// the entries are all covered by the snapshot and a log that ends before the
+		// snapshot can neither be extended by the leader nor replaced by the same snapshot.
+		if r.log.LastIndex() < metadata.LastIncludedIndex {
+			if err := r.log.DiscardEntries(metadata.LastIncludedIndex, metadata.LastIncludedTerm); err != nil {
+				return fmt.Errorf("could not discard log entries: %w", err)
+			}
+		}
 	}
 
 	// Use the most recent configuration from the log.
